@@ -6,6 +6,7 @@ import (
 	"go/token"
 	"go/types"
 	"os"
+	"sort"
 	"strings"
 
 	"golang.org/x/tools/go/ssa"
@@ -130,6 +131,7 @@ func (t *FnTrans) run() (err error) {
 	if t.retCount == 0 && t.ct != nil && len(t.ct.Ensures) > 0 && t.ct.PanicsIf == nil {
 		t.fail("function never returns but has ensures clauses")
 	}
+	t.twoPhaseCheck()
 	if t.ct != nil {
 		for _, g := range t.ct.Ghost {
 			if strings.HasPrefix(g.Arg, "before call ") && !t.ghostHit[g] {
@@ -846,6 +848,9 @@ func (t *FnTrans) instr(in ssa.Instruction) {
 	case *ssa.Index:
 		t.index(x)
 	case *ssa.Store:
+		if t.isReturnSelfStore(x) {
+			break
+		}
 		p := t.ptrOf(x.Addr)
 		if p.Kind == "cell" || p.Kind == "obj" || p.Kind == "elemrow" {
 			t.nilCheck(p.Ref, "store through nil pointer")
@@ -930,7 +935,9 @@ func (t *FnTrans) instr(in ssa.Instruction) {
 				t.earlyRes = nil
 			}
 		}
+		t.deferSite = x
 		t.runDefers()
+		t.deferSite = nil
 	case *ssa.Go:
 		t.goStmt(x)
 	case *ssa.If:
@@ -1132,6 +1139,19 @@ func (t *FnTrans) alloc(x *ssa.Alloc) {
 	p := t.ptrFromRef(n, T)
 	t.store0(p, T)
 	t.initLocks(T, "", n)
+	if ts := t.eng.specs.Types[typeName(T)]; ts != nil && len(ts.GhostZero) > 0 {
+		// ghost fields declared "zero" start at 0 in a zero-valued object
+		var gns []string
+		for gn := range ts.GhostZero {
+			gns = append(gns, gn)
+		}
+		sort.Strings(gns)
+		for _, gn := range gns {
+			gs := t.ghostSort(ts.GhostField[gn], T)
+			gc := t.comp("H."+originName(T)+".$"+gn, "(Array Int "+gs+")")
+			t.cur.H[gc] = app("store", t.get(gc), n, "0")
+		}
+	}
 	t.vals[x] = Val{S: n, P: p}
 }
 
@@ -1160,6 +1180,15 @@ func (t *FnTrans) initLocks(T types.Type, prefix string, ref string) {
 			continue
 		}
 		if _, isS := ft.Underlying().(*types.Struct); isS {
+			if ts := t.eng.specs.Types[typeName(ft)]; ts != nil && len(ts.GhostZero) > 0 {
+				// ghost fields of a struct embedded by value live at its address
+				addr := t.termOfOpt(Val{P: &Ptr{Kind: "field", Comp: c, Ref: ref, T: ft}})
+				for gn := range ts.GhostZero {
+					gs := t.ghostSort(ts.GhostField[gn], ft)
+					gc := t.comp("H."+originName(ft)+".$"+gn, "(Array Int "+gs+")")
+					t.cur.H[gc] = app("store", t.get(gc), addr, "0")
+				}
+			}
 			if ip := t.fieldPtr(&Ptr{Kind: "obj", Ref: ref, T: T}, i); ip.Kind == "obj" && prefix == "" {
 				t.initLocks(ft, "", ip.Ref) // interior object at its own address
 			} else {
@@ -1635,7 +1664,7 @@ func (t *FnTrans) makeInterface(x *ssa.MakeInterface) {
 	}
 	n := q(x.Name())
 	t.define(n, "Int", t.box(term, T))
-	t.vals[x] = Val{S: n, Fn: v.Fn, Bnd: v.Bnd, Box: term}
+	t.vals[x] = Val{S: n, Fn: v.Fn, Bnd: v.Bnd, Box: term, BoxSort: t.sortOf(T)}
 }
 
 // box: the interface value holding `term` of static type T.
@@ -1724,11 +1753,97 @@ func (t *FnTrans) panicInstr(x *ssa.Panic) {
 	t.oblige("unreachable", "false", "explicit panic must be unreachable")
 }
 
+// retOperand: the value of a return operand. go/ssa evaluates the operands of `return v, f(&v)` left to
+// right, i.e. it loads v before the call; the Go specification leaves the order of a variable read and a
+// function call in the same statement unspecified, and the gc compiler (the code that runs) performs the
+// calls first and reads plain variable operands afterwards. For a return operand that is a load of a local
+// variable with a call between the load and the return in the same block, the value at the return is used.
+func (t *FnTrans) retOperand(x *ssa.Return, r ssa.Value) string {
+	u, ok := r.(*ssa.UnOp)
+	if !ok || u.Op != token.MUL || u.Block() != x.Block() {
+		return t.term(r)
+	}
+	al, ok := u.X.(*ssa.Alloc)
+	if !ok || realReferrers(u) != 1 {
+		return t.term(r)
+	}
+	after, call := false, false
+	for _, in := range x.Block().Instrs {
+		if in == ssa.Instruction(u) {
+			after = true
+			continue
+		}
+		if !after {
+			continue
+		}
+		switch in.(type) {
+		case *ssa.Call:
+			call = true
+		case *ssa.RunDefers:
+			return t.term(r)
+		}
+	}
+	if !call {
+		return t.term(r)
+	}
+	t.abstr["gc evaluation order: a local variable operand of a return is read after the calls of the same statement"] = true
+	return t.load(t.ptrOf(al))
+}
+
+// isReturnSelfStore: `return v, f(&v)` with named results is compiled by go/ssa into t1 = *v; call;
+// *v = t1, i.e. the variable is overwritten with the value it had before the call. Under the gc
+// compiler's order (calls first, then plain variable operands) the statement assigns v to itself.
+func (t *FnTrans) isReturnSelfStore(x *ssa.Store) bool {
+	u, ok := x.Val.(*ssa.UnOp)
+	if !ok || u.Op != token.MUL || u.X != x.Addr || u.Block() != x.Block() {
+		return false
+	}
+	if _, ok := u.X.(*ssa.Alloc); !ok {
+		return false
+	}
+	if realReferrers(u) != 1 {
+		return false
+	}
+	after, call := false, false
+	for _, in := range x.Block().Instrs {
+		if in == ssa.Instruction(u) {
+			after = true
+			continue
+		}
+		if in == ssa.Instruction(x) {
+			break
+		}
+		if after {
+			if _, ok := in.(*ssa.Call); ok {
+				call = true
+			}
+		}
+	}
+	if call {
+		t.abstr["gc evaluation order: a local variable operand of a return is read after the calls of the same statement"] = true
+	}
+	return call
+}
+
+// realReferrers counts the instructions using v, ignoring debug references.
+func realReferrers(v ssa.Value) int {
+	if v.Referrers() == nil {
+		return 0
+	}
+	n := 0
+	for _, r := range *v.Referrers() {
+		if _, dbg := r.(*ssa.DebugRef); !dbg {
+			n++
+		}
+	}
+	return n
+}
+
 func (t *FnTrans) ret(x *ssa.Return) {
 	t.retCount++
 	var res []SVal
 	for i, r := range x.Results {
-		res = append(res, SVal{S: t.term(r), T: t.resTypes[i], Sort: t.sortOf(t.resTypes[i])})
+		res = append(res, SVal{S: t.retOperand(x, r), T: t.resTypes[i], Sort: t.sortOf(t.resTypes[i])})
 	}
 	if !t.ghostDone[x] {
 		t.runReturnGhosts(x)
